@@ -129,6 +129,16 @@ func runCheck(prop, tier, repo, verif string, verbose, noReplay bool, evOut stri
 	// attempt generates and discharges everything under the current choice of alternative contracts
 	attempt := func() (failing int, what string, err error) {
 		names := functionsFor(P, prop)
+		if only := os.Getenv("GOVC_ONLY"); only != "" {
+			// development aid: restrict the run to the functions whose contract name contains the text
+			var keep []string
+			for _, n := range names {
+				if strings.Contains(n, only) {
+					keep = append(keep, n)
+				}
+			}
+			names = keep
+		}
 		var errs []error
 		vcs, errs = buildVCs(P, names)
 		// a contract that no longer resolves against the tree is reported below; the other
